@@ -1263,6 +1263,60 @@ def fam_budget(rng, tier="quick"):
     return out
 
 
+def fam_retry(rng, tier="quick"):
+    """C15 / C01: a V9 data flowset whose FIRST record cannot be decoded (a protocol byte 146..254, a counter of an undecodable width)
+    under templates of k fields — all one byte, or k-1 zero-length fields in front of the failing one — and bodies of n bytes: the
+    record loop runs |body| / record-size iterations, none of which yields a record; the cost of the call must not be iterations x k.
+    Also the same shapes with a decodable value (control) and the failing field in the middle."""
+    out = []
+    ks = (40, 600, 4000) if tier == "quick" else (10, 40, 200, 600, 2000, 4000, 12000)
+    ns = (200, 1400) if tier == "quick" else (50, 200, 1400, 9000)
+    for k in ks:
+        for n in ns:
+            for shape in ("zero-then-proto", "ones-then-proto", "zero-then-width5", "proto-in-the-middle", "control"):
+                if shape == "zero-then-proto":
+                    fs = [{"typ": 94, "len": 0}] * (k - 1) + [{"typ": 4, "len": 1}]; body = bytes([200]) * n
+                elif shape == "ones-then-proto":
+                    fs = [{"typ": 5, "len": 1}] * (k - 1) + [{"typ": 4, "len": 1}]; body = bytes([200]) * n
+                elif shape == "zero-then-width5":
+                    fs = [{"typ": 94, "len": 0}] * (k - 1) + [{"typ": 1, "len": 5}]; body = bytes([1]) * n
+                elif shape == "proto-in-the-middle":
+                    fs = [{"typ": 94, "len": 0}] * (k // 2) + [{"typ": 4, "len": 1}] + [{"typ": 94, "len": 0}] * (k - 1 - k // 2); body = bytes([250]) * n
+                else:
+                    fs = [{"typ": 94, "len": 0}] * (k - 1) + [{"typ": 4, "len": 1}]; body = bytes([6]) * min(n, 200, max(4, 8000 // k))
+                t9 = {"v9": {"m": {"count": 1, "sysUpTime": 1, "unixSecs": 1, "seq": 1, "sourceId": 1, "sets": [{"templates": {"ts": [{"id": 256, "fieldCount": k, "fields": fs}], "pad": ""}}]}}}
+                dm = {"raw": {"b": hx(b"\x00\x09\x00\x01" + bytes(16) + (256).to_bytes(2, "big") + (len(body) + 4).to_bytes(2, "big") + body)}}
+                ops = [op_new(0)]
+                for m, w in ((t9, []), (dm, ["export", "common"])):
+                    o = op_parse(0, msgs=[m], want=w); o["nospec"] = True; ops.append(o)
+                out.append(("retry-v9-%s-%d" % (shape, k), ops))
+    return out
+
+
+def fam_bigtemplate_small_sets(rng, tier="quick"):
+    """C15 / C01: a LARGE cached template (k fields, every one of non-zero length) and then ONE packet packed with many data flowsets /
+    sets for it that are too short to hold a single record (bodies of 0..3 bytes): the cost of the call must be paid by the buffer or by
+    the result, not by (number of sets) x (size of the cached template).  V9 data and options data, IPFIX data (where the first
+    undecodable set ends the message, so the message count is what repeats)."""
+    out = []
+    shapes = ((1000, 1000), (4000, 3000)) if tier == "quick" else ((250, 500), (1000, 1000), (4000, 3000), (16000, 13000))
+    for k, ns in shapes:
+        for kind in ("data", "optdata"):
+            for blen in (1, 0, 3):
+                if kind == "data":
+                    t = {"templates": {"ts": [{"id": 256, "fieldCount": k, "fields": [{"typ": 1, "len": 4}] * k}], "pad": ""}}
+                else:
+                    t = {"optTemplates": {"ts": [{"id": 256, "scopeLen": 4, "optLen": 4 * (k - 1), "scope": [{"typ": 1, "len": 4}], "opts": [{"typ": 1, "len": 4}] * (k - 1)}], "pad": ""}}
+                tm = {"v9": {"m": {"count": 1, "sysUpTime": 1, "unixSecs": 1, "seq": 1, "sourceId": 1, "sets": [t]}}}
+                n = min(ns, (65000 - 20) // (4 + blen))
+                dm = {"raw": {"b": hx(b"\x00\x09" + n.to_bytes(2, "big") + bytes(16) + ((256).to_bytes(2, "big") + (4 + blen).to_bytes(2, "big") + bytes([7] * blen)) * n)}}
+                ops = [op_new(0)]
+                for m, w in ((tm, []), (dm, ["export", "common"])):
+                    o = op_parse(0, msgs=[m], want=w); o["nospec"] = True; ops.append(o)
+                out.append(("bigtemplate-v9-%s-%d" % (kind, k), ops))
+    return out
+
+
 def fam_isolation(rng, n):
     """C06: two parser instances fed interleaved histories with colliding template ids behave like
     two parsers fed their histories alone; fixed-format packets / disallowed versions never touch the caches"""
